@@ -640,6 +640,9 @@ def run(ctx):
     shutil.copy(PROPS / "Prop_C05.v", rd / "Prop_C05.v")
     ctx.prove(rd / "Prop_C05.v", "Prop_C05.v (static interpolation / composition / axial-strain theorems)",
               "theorem-file")
+    # static tie: data flow of fit_modulus / get_static_modulus / _calculate_pressure_static re-translated over oracles
+    from props import staticfit_static
+    staticfit_static.static_tie(ctx, rd)
 
     import cij.core.calculator as CC
     import cij.core.full_modulus as FMod
